@@ -118,7 +118,7 @@ def run(repo, tier, seed):
     distinct = set()
     seen_fail = set()
     depth = 2 if tier == "quick" else 3
-    n_random = 3000 if tier == "quick" else 40000
+    n_random = 3000 if tier == "quick" else 150000
     for cs in (True, False):
         prov = MockProvider(False, cs)
         seqs = []
